@@ -396,6 +396,30 @@ def limit_facts(year, given, res):
         if took_part and own + emp > lim + 0.005:
             over = True
     out.append({"name": "an HSA contribution (own plus employer) above the limit", "exceeded": over})
+    def amt(k):
+        try:
+            return float(given.get(k) or 0)
+        except ValueError:
+            return 0.0
+    yes_ = lambda k: str(given.get(k, "")).strip().lower() in ("yes", "y", "true", "1", "on")
+    part = lambda prefix: any(k.startswith(prefix) for k in vals) or any(u.startswith(prefix) for u in res.get("unimpl", []))
+    # further amounts that the program does not support beyond a figure (section 7 of DESIGN.md listed them as not decided until round 18)
+    roth = False
+    for who in ("you", "spouse"):
+        f = "8606:%s" % who
+        if yes_(f + ".part_3_needed") and all((f + x) in given for x in (".total_nonqualified_distributions", ".qualified_homebuyer", ".roth_ira_contributions_basis")):
+            l21 = max(0.0, amt(f + ".total_nonqualified_distributions") - amt(f + ".qualified_homebuyer"))
+            if l21 - amt(f + ".roth_ira_contributions_basis") > 0.005 and part(f + "."):
+                roth = True
+    out.append({"name": "a nonqualified Roth IRA distribution above the contribution basis (Form 8606 line 23 positive: Form 5329 and lines 24-25 are not supported)", "exceeded": roth})
+    archer = any(amt("8889:%s.archer_msa" % w) > 0.005 and part("8889:%s." % w) for w in ("you", "spouse"))
+    out.append({"name": "Archer MSA contributions (Form 8889 line 4 needs Form 8853)", "exceeded": archer})
+    noncash = amt("1040_sa.charitable_other_than_cash_check") > 500.005 and "1040_sa.filling_8283" in given and not yes_("1040_sa.filling_8283") and part("1040_sa.")
+    out.append({"name": "gifts other than by cash or check above $500 without Form 8283 (Schedule A line 12)", "exceeded": bool(noncash)})
+    # the most any return may deduct: $250 per educator in 2021, $300 from 2022, two educators on a joint return
+    edu_max = 500.0 if year == 2021 else 600.0
+    out.append({"name": "educator expenses above the most two educators may deduct (Schedule 1 line 11)",
+                "exceeded": bool(amt("1040_s1.educator_expenses") > edu_max + 0.005 and (("1040_s1.11" in vals) or "1040_s1.11" in res.get("unimpl", []) or "1040_s1.26" in vals))})
     for t in ("1099-int", "1099-div"):
         n = int(given.get("1040.number_" + t, "0") or 0)
         out.append({"name": "more %s payers than Schedule B has rows" % t, "exceeded": n > 14 and any(k.startswith("1040_sb.") for k in vals)})
@@ -417,6 +441,7 @@ def c09(tier):
     obs, meta = [], {}
     nflip = 0
     flipped_gates = set()
+    nco = [0]
 
     def add(trace, res, year, info, given):
         oid = len(obs) + 1
@@ -460,6 +485,34 @@ def c09(tier):
             nflip += 1
             flipped_gates.add(_strip_inst(g))
             add(tr, res, year, {"kind": variant, "gate": g, "value": text, "sid": sc["sid"], "year": year, "request": request, "given": dict(ans.given)}, ans.given)
+            if variant != "flip":
+                continue
+            # the gate may be masked by another answer: every yes/no answer that a line reading the gate ALSO consulted in this run (directly, or
+            # through a line it read) is inverted, one at a time -- "late, but with a federal extension" must stop the return like "late" does
+            attempts = [ev for ev in tr["events"] if ev["ev"] == "attempt"]
+            readers = [ev for ev in attempts if any(k3 == "in" and n3 == g for (k3, n3, _d3) in ev["reads"])]
+            co = set()
+            for ev in readers:
+                for (k3, n3, _d3) in ev["reads"]:
+                    if k3 == "in":
+                        co.add(n3)
+                    elif k3 == "ln":
+                        for ev2 in attempts:
+                            if ev2["line"] == n3:
+                                co.update(n4 for (k4, n4, _d4) in ev2["reads"] if k4 == "in")
+            kinds = dict(sc.get("kinds", {}))
+            kinds.update(ans.kinds)              # (an answer served from the overrides has no kind recorded in this run)
+            co = sorted(c for c in co if c != g and kinds.get(c) == "BooleanInput" and _strip_inst(c) not in gate_inputs and c in ans.given)
+            for c in co[:6]:
+                cur = str(ans.given[c]).strip().lower()
+                ov2 = dict(ov)
+                ov2[c] = "no" if cur in ("yes", "true", "y", "1") else "yes"
+                rng = random.Random("flip-%s-%s" % (sc["sid"], g))
+                tr2, res2, _solver2, ans2 = scenarios.solve_scenario(year, request, scenarios.Profile(rng, year=year), rng, overrides=ov2, snap="none")
+                nflip += 1
+                nco[0] += 1
+                add(tr2, res2, year, {"kind": "flip+co-answer %s=%s" % (c, ov2[c]), "gate": g, "value": text, "sid": sc["sid"], "year": year, "request": request,
+                                      "given": dict(ans2.given)}, ans2.given)
 
     for sc in scs:
         year, request, given = sc["year"], sc["request"], sc["given"]
@@ -598,7 +651,7 @@ def c09(tier):
         flipped_gates.add(_strip_inst(g))
     # amounts beyond an implemented limit
     for year in scenarios.YEARS:
-        for kind in ("payers-int", "payers-div", "foreign", "hsa"):
+        for kind in ("payers-int", "payers-div", "foreign", "hsa", "roth", "archer", "noncash", "educator"):
             for rep_k in range(2 if tier == "quick" else 8):
                 rng = random.Random("lim-%d-%s-%d-%d" % (year, kind, rep_k, sd))
                 # a plain return otherwise (the first repetition), so that nothing else keeps it from solving
@@ -620,6 +673,28 @@ def c09(tier):
                 elif kind == "foreign":
                     p.n["1099-int"] = max(1, p.n["1099-int"])
                     ov = {"1099-int:0.box_6": "%.2f" % (601.0 + rep_k)}
+                elif kind == "roth":
+                    # a Roth distribution above the basis in contributions, next to or without the other parts of Form 8606
+                    p.ira, p.f8606 = True, True
+                    p.n["1099-r"] = max(1, p.n["1099-r"])
+                    ov = {"1099-r:0.box_7_ira_sep_simple": "yes", "1099-r:0.belongs_to": "taxpayer", "1040.ira_exception2_you": "yes", "1099-r:0.box_1": "8000.00", "1099-r:0.box_2a": "8000.00",
+                          "8606:you.part_1_needed": "no" if rep_k % 2 == 0 else "yes", "8606:you.part_2_needed": "no", "8606:you.part_3_needed": "yes",
+                          "8606:you.qualified_disaster_distributions": "no",
+                          "8606:you.total_nonqualified_distributions": "%.2f" % (20000.0 + 100 * rep_k), "8606:you.qualified_homebuyer": "%.2f" % (0.0 if rep_k < 2 else 10000.0),
+                          "8606:you.roth_ira_contributions_basis": "%.2f" % (5000.0 if rep_k != 1 else 19999.0)}
+                elif kind == "archer":
+                    p.sched1_adjust, p.hsa_you, p.hsa_spouse = True, True, False
+                    lim_self = {2021: 3600.0, 2022: 3650.0, 2023: 3850.0}[year]
+                    ov = {"8889:you.hdhp_plan_family": "no", "8889:you.age_under_55": "yes", "8889:you.hsa_full_year": "yes", "8889:you.employer_contribution": "0.00",
+                          "8889:you.hsa_contributions": "%.2f" % (lim_self - 2000.0), "8889:you.archer_msa": "%.2f" % (0.01 if rep_k == 1 else 500.0 + rep_k),
+                          "8889:you.part_2_needed": "no", "8889:you.part_3_needed": "no", "8889:you.qualified_distribution": "no"}
+                elif kind == "noncash":
+                    p.itemize = True
+                    p.n["1098"] = max(1, p.n["1098"])
+                    ov = {"1040_sa.charitable_other_than_cash_check": "%.2f" % (500.01 if rep_k == 1 else 900.0 + rep_k), "1040_sa.filling_8283": "no"}
+                elif kind == "educator":
+                    p.sched1_adjust = True
+                    ov = {"1040_s1.educator_expenses": "%.2f" % ((500.01 if year == 2021 else 600.01) if rep_k == 1 else 700.0 + rep_k)}
                 else:
                     # own contributions within the limit, but not together with what the employer paid in
                     p.sched1_adjust, p.hsa_you, p.hsa_spouse = True, True, False
@@ -670,7 +745,7 @@ def c09(tier):
            "rule": "base scenarios from the explorer; for every catalogued gate input that a base run supplied, the run repeated with that input affirmative; "
                    "limit scenarios (15 payers, foreign tax above the threshold); distinct = distinct gates flipped",
            "samples": [meta[len(obs)], {"reads": obs[0]["reads"][:4]}],
-           "catalogue_gates": len(cat), "gates_flipped": sorted(flipped_gates), "flipped_runs": nflip, "same_store_flips": nsame, "base_runs": len(scs),
+           "catalogue_gates": len(cat), "gates_flipped": sorted(flipped_gates), "flipped_runs": nflip, "co_answer_flips": nco[0], "same_store_flips": nsame, "base_runs": len(scs),
            "gates_never_read": sorted(gate_inputs - flipped_gates),
            "year_gate_pairs_flipped_on_a_solved_base": len(flips_done), "directed_base_attempts": ndirected,
            "year_gate_pairs_never_flipped": sorted("%s:%s" % (y, g["input"]) for g in cat for y in g["years"] if (int(y), g["input"]) not in flips_done),
@@ -729,6 +804,30 @@ def c02(tier):
                     S["1040.in:" + gname.split(".", 1)[1]] = int((Decimal(sc["given"][gname]) * 100).to_integral_value())
             except Exception:      # noqa  (an answer that is not a number: no pseudo-line)
                 pass
+        # every answer of a form that takes part, visible to the rules as the pseudo-line "<form>.in:<input>" (amounts in cents, counts in
+        # hundredths, yes/no as 1/0; a blank amount is zero) -- many lines are instructed to copy an amount the filer was told or to depend on a box
+        for gname, gtext in sc.get("given", {}).items():
+            kind = sc.get("kinds", {}).get(gname, "")
+            if "." not in gname:
+                continue
+            gf, gi = gname.split(".", 1)
+            pn = "%s.in:%s" % (gf, gi)
+            if pn in S:
+                continue
+            try:
+                t = str(gtext).strip()
+                if kind == "FloatInput":
+                    c = int((Decimal(t or "0") * 100).to_integral_value())
+                elif kind == "IntegerInput":
+                    c = int(t or "0") * 100
+                elif kind == "BooleanInput":
+                    c = {"yes": 1, "true": 1, "y": 1, "1": 1, "on": 1, "no": 0, "false": 0, "n": 0, "0": 0, "off": 0}[t.lower()]
+                else:
+                    continue
+                if abs(c) < 2 ** 31 - 1:
+                    S[pn] = c
+            except Exception:      # noqa  (an answer that does not parse: no pseudo-line)
+                pass
         if "1040.4a" in S and "1040.4b" in S:
             S["1040.4a_plus_4b"] = S["1040.4a"] + S["1040.4b"]      # total and taxable part of the IRA distributions: see the "ira4" rule
         absent = set()
@@ -739,10 +838,18 @@ def c02(tier):
             for finst in instances:
                 full = lambda l: l if "." in l else "%s.%s" % (finst, l)
                 line = full(e["line"])
-                if line not in S:
-                    continue
                 op = e["op"]
+                if line not in S and not (op == "ratio" and line in R):
+                    continue
                 args = [full(a) for a in e.get("args", [])]
+                if op == "t8606":
+                    # Form 8606: the taxable amounts of the parts that were filled in (line 15c when part I applies and there was a distribution or
+                    # conversion, line 18 when part II applies; line 25c of part III is only ever zero here, the program stops otherwise)
+                    g1, gd, g2 = (S.get(full("in:" + x)) for x in ("part_1_needed", "distribution_or_roth_conversion", "part_2_needed"))
+                    if g1 is None or g2 is None or (g1 == 1 and gd is None):
+                        continue
+                    args = ([full("15c")] if (g1 == 1 and gd == 1) else []) + ([full("18")] if g2 == 1 else [])
+                    op = "add" if args else "zero"
                 if op == "addinst":
                     # the same box of every copy of a payer form that takes part
                     args = sorted(n for n in S for (ins, box) in e["terms"] if n.split(".")[0].split(":")[0] == ins and n.split(".", 1)[1] == box)
@@ -814,6 +921,8 @@ def c02(tier):
                 if op == "mull" and args[-1] not in R:
                     need.append(args[-1])
                 cond = e.get("cond", "")
+                if cond and "." not in cond:
+                    cond = full(cond)           # a condition on a line or answer of the same form instance
                 if cond and cond not in S:
                     need.append(cond)
                 if need:
